@@ -9,7 +9,7 @@ connection received (per socket, in order), the four query methods and
 ListNames (as a set) are compared.  The extracted specification
 (coq/Spec/RegistrySpec.v) runs alongside as the oracle, in its literal form
 and in the as-implemented form (the two recorded exceptions F4 / F4b)."""
-import glob, json, multiprocessing, os, random, re, sys
+import glob, json, multiprocessing, os, random, re, shutil, sys, tempfile
 import vlib
 
 sys.path.insert(0, os.path.join(vlib.VERIF, "harness", "py"))
@@ -278,10 +278,26 @@ def run(ctx):
     model, mcr = vlib.run_lines(info["model_registry"], lines)
     for line, err in mcr:
         rep.violation("extracted model failed on `%s`: %s" % (line[:200], err[-300:]), {"input": line, "names": "model driver"}, found_input=False)
-    exe = info["daemon"]
-    jobs = [(exe, l, p, ev) for l, p, ev in cases]
-    with multiprocessing.get_context("fork").Pool(NPROC) as pool:
-        impl = pool.map(registry_run.worker, jobs, chunksize=4)
+    # Private snapshot of the daemon and its libdbus, taken under the build lock: other checks (or a new commit in
+    # /repo) may relink build/dbus/bin/dbus-daemon while this run is still spawning daemons.
+    snap = tempfile.mkdtemp(prefix="c04_daemon_")
+    old_ld = os.environ.get("LD_LIBRARY_PATH")
+    try:
+        with vlib.Lock():
+            exe = os.path.join(snap, "dbus-daemon")
+            shutil.copy2(info["daemon"], exe)
+            lib = os.path.realpath(os.path.join(vlib.DBUS_BUILD, "lib", "libdbus-1.so.3"))
+            shutil.copy2(lib, os.path.join(snap, "libdbus-1.so.3"))
+        os.environ["LD_LIBRARY_PATH"] = snap + ((":" + old_ld) if old_ld else "")   # the binary has a RUNPATH, so this wins
+        jobs = [(exe, l, p, ev) for l, p, ev in cases]
+        with multiprocessing.get_context("fork").Pool(NPROC) as pool:
+            impl = pool.map(registry_run.worker, jobs, chunksize=4)
+    finally:
+        if old_ld is None:
+            os.environ.pop("LD_LIBRARY_PATH", None)
+        else:
+            os.environ["LD_LIBRARY_PATH"] = old_ld
+        shutil.rmtree(snap, ignore_errors=True)
 
     stats = {"events": 0, "reply": {}, "exceptions": {}, "handover": 0, "disconnect_with_names": 0, "limit_refusals": 0, "invalid_name_refusals": 0}
     nontrivial = set()
